@@ -1191,3 +1191,17 @@ package analysis
 //@   loop 4: invariant forall c string :: old(c in dom(s.authSchemes)) ==> c in dom(s.authSchemes)
 //@   loop 5: modifies heap spec.Parameter, map s.allSchemas, map s.allOfs, map s.references.schemas, map s.references.responses, map s.references.parameters, map s.references.items, map s.references.headerItems, map s.references.parameterItems, map s.references.allRefs, map s.patterns.parameters, map s.patterns.headers, map s.patterns.items, map s.patterns.schemas, map s.patterns.allPatterns, map s.enums.parameters, map s.enums.headers, map s.enums.items, map s.enums.schemas, map s.enums.allEnums
 //@   loop 6: modifies heap spec.Response, map s.allSchemas, map s.allOfs, map s.references.schemas, map s.references.responses, map s.references.parameters, map s.references.items, map s.references.headerItems, map s.references.parameterItems, map s.references.allRefs, map s.patterns.parameters, map s.patterns.headers, map s.patterns.items, map s.patterns.schemas, map s.patterns.allPatterns, map s.enums.parameters, map s.enums.headers, map s.enums.items, map s.enums.schemas, map s.enums.allEnums
+
+//@ fun opAtM(pi spec.PathItem, M string) *spec.Operation = if M == "GET" then pi.Get else if M == "PUT" then pi.Put else if M == "POST" then pi.Post else if M == "PATCH" then pi.Patch else if M == "DELETE" then pi.Delete else if M == "HEAD" then pi.Head else if M == "OPTIONS" then pi.Options else nil
+
+//@ func (s *Spec) analyzeOperations(path, pi)
+//@   aspect ops
+//@   requires s != nil && pi != nil && idxMaps(s) && opsWF(s)
+//@   modifies heap spec.Parameter, map s.operations, heap map[string]*spec.Operation, map s.consumes, map s.produces, map s.authSchemes, map s.allSchemas, map s.allOfs, map s.references.schemas, map s.references.responses, map s.references.parameters, map s.references.items, map s.references.headerItems, map s.references.parameterItems, map s.references.allRefs, map s.references.pathItems, map s.patterns.parameters, map s.patterns.headers, map s.patterns.items, map s.patterns.schemas, map s.patterns.allPatterns, map s.enums.parameters, map s.enums.headers, map s.enums.items, map s.enums.schemas, map s.enums.allEnums
+//@   ensures opsWF(s)
+//@   ensures forall M string :: opAtM(*pi, M) != nil ==> inOpsIdx(s, M, path) && s.operations[M][path] == opAtM(*pi, M)
+//@   ensures forall M string :: forall p string :: inOpsIdx(s, M, p) ==> (old(inOpsIdx(s, M, p)) && s.operations[M][p] == old(s.operations[M][p])) || (p == path && opAtM(*pi, M) != nil && s.operations[M][p] == opAtM(*pi, M))
+//@   ensures forall M string :: forall p string :: old(inOpsIdx(s, M, p)) ==> inOpsIdx(s, M, p)
+//@   ensures forall c string :: old(c in dom(s.consumes)) ==> c in dom(s.consumes)
+//@   ensures forall c string :: old(c in dom(s.produces)) ==> c in dom(s.produces)
+//@   loop 1: modifies heap spec.Parameter, map s.allSchemas, map s.allOfs, map s.references.schemas, map s.references.responses, map s.references.parameters, map s.references.items, map s.references.headerItems, map s.references.parameterItems, map s.references.allRefs, map s.patterns.parameters, map s.patterns.headers, map s.patterns.items, map s.patterns.schemas, map s.patterns.allPatterns, map s.enums.parameters, map s.enums.headers, map s.enums.items, map s.enums.schemas, map s.enums.allEnums
